@@ -33,6 +33,48 @@ let parse_ast (s : string) : block list =
        | _ -> failwith "test block")
     | _ -> failwith "block") (split_on ';' s)
 
+
+(* independent of model and grammar: the expected exit code of every returned test case is written in the document, on a line
+   `[n]` between the test's own `$` line and the next test's (C06 / C07: "expected exit code ... exactly those written") *)
+let exit_codes_written (sep : n list -> bool) (lines : n list list) (res : string) : string option =
+  if String.length res < 4 || String.sub res 0 3 <> "ok:" || res = "ok:-" then None else begin
+    let tests = List.filter_map (fun t -> match split_on '^' t with
+        | [_; _; _; code; ln; _] -> Some ((if code = "-" then None else Some (int_of_string code)), int_of_string ln)
+        | _ -> None) (split_on '&' (String.sub res 3 (String.length res - 3))) in
+    let arr = Array.of_list lines in
+    let code_of (l : n list) : int option =
+      let rec drop = function c :: r when int_of_n c = 32 -> drop r | r -> r in
+      (match drop l with
+       | c :: r when int_of_n c = 91 ->
+         let rec digits acc = function
+           | d :: r when int_of_n d >= 48 && int_of_n d <= 57 -> digits (acc * 10 + (int_of_n d - 48)) r
+           | [e] when int_of_n e = 93 -> Some acc
+           | _ -> None in
+         (match r with d :: _ when int_of_n d >= 48 && int_of_n d <= 57 -> digits 0 r | _ -> None)
+       | _ -> None) in
+    (* .. or before its command in the same block (lines of a block that precede the `$` line belong to that command):
+       then no line that ends a block ([sep]) stands between the two *)
+    let rec go prev = function
+      | [] -> None
+      | (code, ln) :: rest ->
+        let stop = (match rest with (_, ln2) :: _ -> ln2 - 1 | [] -> Array.length arr) in
+        (match code with
+         | None -> go ln rest
+         | Some c ->
+           let found = ref false in
+           for i = ln to min stop (Array.length arr) - 1 do if code_of arr.(i) = Some c then found := true done;
+           let before = ref false in
+           for i = min (ln - 2) (Array.length arr - 1) downto prev do
+             if i >= 0 && code_of arr.(i) = Some c then begin
+               let clean = ref true in
+               for j = i + 1 to ln - 2 do if sep arr.(j) then clean := false done;
+               if !clean then before := true
+             end done;
+           if !found || !before then go ln rest
+           else Some (Printf.sprintf "the test case of line %d expects exit code %d, which is not written in its block" ln c)) in
+    go 0 tests
+  end
+
 let run_cram () = iter_lines (fun line ->
   match split_on '|' (String.sub line 2 (String.length line - 2)) with
   | [ast; doc; res] ->
@@ -44,6 +86,7 @@ let run_cram () = iter_lines (fun line ->
     note_distinct doc (List.length lines > 1); sample line;
     if m <> res then report "DIFF:cram" ("model=" ^ m) line;
     if res = "panic" then report "SPEC:C07" "parsing a Cram document panicked" line;
+    (match exit_codes_written (fun l -> match l with a :: _ when int_of_n a = 35 -> false (* a comment line is no part of the document *) | a :: b :: _ -> not (int_of_n a = 32 && int_of_n b = 32) | _ -> true) lines res with Some m -> report "SPEC:C07" m line | None -> ());
     if ast <> "~" then begin
       let d = parse_ast ast in
       (* the document really is the rendering of the AST (modulo the line terminators the harness chose) *)
@@ -139,6 +182,7 @@ let run_md () = iter_lines (fun line ->
     bump ("result:" ^ (if res = "err" then "err" else if res = "panic" then "panic" else "ok"));
     note_distinct doc (List.length lines > 1); sample line;
     if res = "panic" then report "SPEC:C06" "parsing a Markdown document panicked" line;
+    (match exit_codes_written (fun l -> match l with a :: b :: c :: _ -> int_of_n a = 96 && int_of_n b = 96 && int_of_n c = 96 | _ -> false) lines res with Some m -> report "SPEC:C06" m line | None -> ());
     let known_cfg c = Array.exists (fun x -> x = string_of_text c) cfg_table in
     let known_front ls = Array.exists (fun x -> List.map text_of_string x = ls) front_table in
     if soup then begin
